@@ -44,6 +44,9 @@ type ReqB struct {
 	Accounts []int  `json:"accounts"`
 	ByKey    bool   `json:"by_key,omitempty"`
 	ViaGRPC  bool   `json:"via_grpc,omitempty"`
+	// WalletForm: how a wallet-level request spells the wallet: 0 = "wallet", 1 = "wallet/account"
+	// (the wallet is still what gets resolved), 2 = "wallet/".
+	WalletForm int `json:"wallet_form,omitempty"`
 }
 
 // CaseB is a configuration and a request sequence.
@@ -88,6 +91,9 @@ func genCaseB(t *rapid.T) *CaseB {
 			Op:      rapid.SampledFrom([]string{"sign", "multisign", "attest", "attests", "propose", "list", "lock-account", "unlock-account", "lock-wallet", "unlock-wallet", "create"}).Draw(t, "op"),
 			ByKey:   rapid.Bool().Draw(t, "bykey"),
 			ViaGRPC: rapid.Bool().Draw(t, "grpc"),
+		}
+		if r.Op == "lock-wallet" || r.Op == "unlock-wallet" {
+			r.WalletForm = rapid.SampledFrom([]int{0, 0, 1, 1, 2}).Draw(t, "wallet_form")
 		}
 		m := 1
 		if r.Op == "multisign" || r.Op == "attests" {
@@ -255,12 +261,32 @@ func runB(c *CaseB) (*outB, *vkit.Violation, error) {
 		case "unlock-account":
 			res, _ := st.AccMgr.Unlock(vkit.Ctx(r.Client, ""), vkit.Creds(r.Client, ""), accs[0].Path(), []byte(vkit.DefaultPassphrase))
 			served[0] = res == core.ResultSucceeded
-		case "lock-wallet":
-			res, _ := st.WalMgr.Lock(vkit.Ctx(r.Client, ""), vkit.Creds(r.Client, ""), accs[0].Wallet)
-			served[0] = res == core.ResultSucceeded
-		case "unlock-wallet":
-			res, _ := st.WalMgr.Unlock(vkit.Ctx(r.Client, ""), vkit.Creds(r.Client, ""), accs[0].Wallet, nil)
-			served[0] = res == core.ResultSucceeded
+		case "lock-wallet", "unlock-wallet":
+			wname := accs[0].Wallet
+			switch r.WalletForm {
+			case 1:
+				wname = accs[0].Path()
+			case 2:
+				wname += "/"
+			}
+			if r.ViaGRPC {
+				if r.Op == "lock-wallet" {
+					resp, err := st.WalMgrH.Lock(vkit.Ctx(r.Client, ""), vkit.WireRoundTrip(&pb.LockWalletRequest{Wallet: wname}))
+					served[0] = err == nil && resp.GetState() == pb.ResponseState_SUCCEEDED
+				} else {
+					resp, err := st.WalMgrH.Unlock(vkit.Ctx(r.Client, ""), vkit.WireRoundTrip(&pb.UnlockWalletRequest{Wallet: wname}))
+					served[0] = err == nil && resp.GetState() == pb.ResponseState_SUCCEEDED
+				}
+			} else if r.Op == "lock-wallet" {
+				res, _ := st.WalMgr.Lock(vkit.Ctx(r.Client, ""), vkit.Creds(r.Client, ""), wname)
+				served[0] = res == core.ResultSucceeded
+			} else {
+				res, _ := st.WalMgr.Unlock(vkit.Ctx(r.Client, ""), vkit.Creds(r.Client, ""), wname, nil)
+				served[0] = res == core.ResultSucceeded
+			}
+			if r.WalletForm != 0 {
+				vkit.S.Class("b:wallet-operation-spelled-with-a-suffix")
+			}
 		}
 		after, err := st.Export()
 		if err != nil {
